@@ -5,9 +5,10 @@ import Nstd.Generated.Sha256Tables
 
   Translated (tools/gen_sha.py, regenerated from the current sources on every run):
   `K`, `H0`, `count0`, `blockSize`, `digestSize`, `hmacOpad`, `hmacIpad`, `rotrFixed S0 S1 s0 s1 Ch Maj`, and the statement macros
-  `blk0 blk2 R` (as transformers of the local arrays `T`, `W`).
-  Hand written here: the control flow around them, mirroring the C++ code line by line
-  (copy loops, the `j`/`i` loops of `Transform`, `WriteByteBlock`, the byte loop of `update`,
+  `blk0 blk2 R` (as transformers of the record `RS` of the variables `Transform` assigns), and the body of
+  `Transform` itself (its three loops as `Transform_for1 … Transform_for4`).
+  Hand written here: the remaining control flow, mirroring the C++ code line by line
+  (`WriteByteBlock`, the byte loop of `update`,
   the padding loop of `finalize` with its wrap-around block, the length loop, the digest
   loop, `hmac`).  Loop counters that are plain array positions are `Nat`; array writes go
   through the checked `wr` (an out-of-range write destroys the array instead of being dropped), array reads
@@ -27,30 +28,19 @@ structure Sha where
   ok : Bool
 deriving Repr, DecidableEq
 
-/-- `for (i = 0; i < 16; i++) { R(i); }` -/
-def innerLoop (data : List UInt32) (j : Nat) (i : Nat) (s : RS) : RS :=
-  if i < 16 then innerLoop data j (i + 1) (R K data (UInt32.ofNat j) (UInt32.ofNat i) s) else s
-termination_by 16 - i
+/-- `Transform(UInt32 *state, const UInt32 *data)`: the GENERATED translation of the function body
+(`Nstd.Generated.Sha256.Transform`: copy loop `T[j] = state[j]`, the 4 × 16 rounds over the rolling window,
+`state[j] += T[j]`), started with the local arrays `T[8]`, `W[16]` holding `t0`, `w0` (they are uninitialised
+in C++).  Second component: every array read (`state[j]`, `T[j]` of the two copy loops, and all reads of
+`T W K data` inside `R`) was in range. -/
+def transformFrom (t0 w0 : List UInt32) (state data : List UInt32) : List UInt32 × Bool :=
+  let s := Transform data { T := t0, W := w0, state := state, ok := true }
+  (s.state, s.ok)
 
-/-- `for (j = 0; j < 64; j += 16) { ... }` -/
-def outerLoop (data : List UInt32) (j : Nat) (s : RS) : RS :=
-  if j < 64 then outerLoop data (j + 16) (innerLoop data j 0 s) else s
-termination_by 64 - j
-
-/-- `Transform(UInt32 *state, const UInt32 *data)` (the non-unrolled variant) started with the local
-array `W[16]` holding `w0` (it is uninitialised in C++): `T[j] = state[j]`, the 4 × 16 rounds over the
-rolling window, `state[j] += T[j]`.  Second component: every array read (`state[j]`, `T[j]` of the two
-copy loops, and all reads of `T W K data` inside `R`) was in range. -/
-def transformFrom (w0 : List UInt32) (state data : List UInt32) : List UInt32 × Bool :=
-  let T := (List.range 8).map fun j => state.getD j 0
-  let s := outerLoop data 0 { T := T, W := w0, ok := (List.range 8).all fun j => inb state j }
-  ((List.range 8).map fun j => state.getD j 0 + s.T.getD j 0,
-   s.ok && (List.range 8).all fun j => inb state j && inb s.T j)
-
-/-- `Transform` as executed by the model driver: the uninitialised `W` is zeros (every cell is written
-by `blk0` before it is read: `transform_ignores_uninitialised_W` in Props.lean) -/
+/-- `Transform` as executed by the model driver: the uninitialised `T`, `W` are zeros (every cell is written
+before it is read: `transform_ignores_uninitialised_locals` in Props.lean) -/
 def transform (state data : List UInt32) : List UInt32 × Bool :=
-  transformFrom (List.replicate 16 0) state data
+  transformFrom (List.replicate 8 0) (List.replicate 16 0) state data
 
 /-- `data32[i] = (buffer[4i] << 24) + (buffer[4i+1] << 16) + (buffer[4i+2] << 8) + buffer[4i+3]` -/
 def data32 (buffer : List UInt8) : List UInt32 :=
